@@ -15,7 +15,7 @@ DOMAINS = {
     'int': [-2, -1, 0, 1, 2, 7, 2147483648, -9223372036854775807, 9223372036854775807],
     'dbl': [-1.5, -0.0, 0.0, 0.5, 2.0, 1e308, NAN, INF],
     'str': ['', 'a', 'Ab c', 'é', '日本', 'a,b', '%_', ' x '],
-    'date': [D(1970, 1, 1), D(2024, 2, 29), D(2023, 12, 31), D(2024, 12, 30)],
+    'date': [D(1970, 1, 1), D(2024, 2, 29), D(2023, 12, 31), D(2024, 12, 30), D(2023, 1, 31), D(2024, 1, 30), D(2023, 3, 31), D(2023, 1, 29)],   # incl. month ends followed by a shorter month
     'ts': [DT(1970, 1, 1), DT(2024, 2, 29, 13, 45, 59, 123000), DT(1969, 12, 31, 23, 59, 59, 500000), DT(2024, 12, 30), DT(2023, 12, 31, 23, 59, 59, 999000)],
     'small': [-1, 0, 1, 2, 5],
     'pat': ['a', '^a.*', '(', '[b-', 'b|c'],
